@@ -112,6 +112,30 @@ fn corpus(tier: Tier) -> Vec<(String, bool)> {
         ov.push(Rule::normal(&format!("E{i}"), vec![Directive::Memoize], choice(vec![over("Xa"), over("Zc"), bover("Yb"), over("Ve")])));
     }
     rules.extend(ov);
+    // several distinct @check functions on one rule (struct, override, @string, @char): call order is grammar order
+    for i in 0..16usize {
+        let mut dirs: Vec<Directive> = (0..(2 + i % 5)).map(|k| Directive::Check(vec!["crate".into(), "checks".into(), format!("c{}_{}", i, (k * 7 + i) % 11)])).collect();
+        let body = match i % 3 {
+            0 => seq(vec![field("a", "Xa"), opt(field("b", "Yb"))]),
+            1 => choice(vec![over("Xa"), over("Zc")]),
+            _ => {
+                dirs.insert(1, Directive::String);
+                plus(lit("s"))
+            }
+        };
+        if i % 4 == 0 {
+            dirs.push(Directive::Memoize);
+        }
+        rules.push(Rule::normal(&format!("K{i}"), dirs, body));
+    }
+    for i in 0..4usize {
+        let n = 2 + i;
+        rules.push(Rule {
+            name: format!("Kc{i}"),
+            directives: (0..n).map(|k| Directive::Check(vec!["crate".into(), format!("cc{}_{}", i, (k * 5 + i) % 7)])).collect(),
+            def: RuleDef::Char { parts: vec![CharPart::Range(LitChar::canon('a'), LitChar::canon('f'))], checks_before: n / 2 },
+        });
+    }
     out.push((grammar_text(&Grammar { rules }), true));
     out
 }
